@@ -38,7 +38,10 @@ def run_property(pid: str, tier: str, seed: int) -> int:
     # a function that left the supported subset has one `<function>.in_subset` obligation (undecided) instead of
     # its VCs: its baseline obligations are then not "missing" -- the property falls back to the bounded stand-in
     left = [n[:-len("in_subset")] for n in names if n.endswith(".in_subset")]
-    missing = sorted(n for n in base_names - set(names) if not any(n.startswith(pfx) for pfx in left))
+    # call-site precondition obligations (`<f>.call[<callee>].precondition`) exist only while the call does: an
+    # edit that removes the call removes the obligation, and the caller's own postconditions decide
+    missing = sorted(n for n in base_names - set(names)
+                     if not any(n.startswith(pfx) for pfx in left) and ".call[" not in n)
     if left:
         rep.extra["functions_outside_the_supported_subset"] = [p.rstrip(".") for p in left]
     if missing and tier in baseline.get("tiers", ["quick", "thorough"]):
